@@ -12,12 +12,40 @@ BINOPS = ['*', '/', '%', '+', '-', '<', '<=', '>', '>=', '==', '!=', '&&', '||']
 LEVEL = {'||': 1, '&&': 2, '==': 3, '!=': 3, '<': 4, '<=': 4, '>': 4, '>=': 4, '+': 5, '-': 5, '*': 6, '/': 6, '%': 6}
 
 
+# ------------------------------------------------------------------ big decimal I/O
+# The harness must not touch the interpreter's int/str digit limit (the implementation's
+# behaviour depends on it), so long constants are converted in chunks.
+_CH = 4000
+
+
+def dec_to_int(digits):
+    v = 0
+    for i in range(0, len(digits), _CH):
+        chunk = digits[i:i + _CH]
+        v = v * 10 ** len(chunk) + int(chunk)
+    return v
+
+
+def int_to_dec(v):
+    if v < 0:
+        return '-' + int_to_dec(-v)
+    if v < 10 ** _CH:
+        return str(v)
+    parts = []
+    base = 10 ** _CH
+    while v >= base:
+        v, r = divmod(v, base)
+        parts.append(str(r).rjust(_CH, '0'))
+    parts.append(str(v))
+    return ''.join(reversed(parts))
+
+
 # ------------------------------------------------------------------ canonical printing
 def tree_str(t):
     if t == 'n':
         return 'n'
     if isinstance(t, int):
-        return str(t)
+        return int_to_dec(t)
     if t[0] == '!':
         return '(! %s)' % tree_str(t[1])
     if t[0] == '?':
@@ -122,7 +150,7 @@ def ref_lex(s):
             j = i
             while j < len(s) and s[j] in '0123456789':
                 j += 1
-            out.append(('num', int(s[i:j]) if j - i <= 4000 else int(s[i:i + 4000]) * 10 ** (j - i - 4000)))
+            out.append(('num', dec_to_int(s[i:j])))
             i = j
             continue
         two = s[i:i + 2]
@@ -228,10 +256,15 @@ def ref_parse(s):
 
 
 def ref_parse_str(s):
+    import sys
+    old = sys.getrecursionlimit()
+    sys.setrecursionlimit(max(old, 50000))
     try:
         return 'ok ' + tree_str(ref_parse(s))
     except RefSyntaxError:
         return 'err syntax'
+    finally:
+        sys.setrecursionlimit(old)
 
 
 class RefFail(Exception):
@@ -304,7 +337,7 @@ def ast_str(node):
         elif isinstance(x, ast.Name):
             out.append(x.id)
         elif isinstance(x, ast.Constant):
-            out.append(str(x.value))
+            out.append(int_to_dec(x.value))
         elif isinstance(x, ast.UnaryOp):
             out.append('(! ')
             stack.extend([')', x.operand])
@@ -488,3 +521,43 @@ def oracle_period(payload):
         if out(n) != out(n + p):
             return 'period (%d, %d) but outcome(%d) = %s and outcome(%d) = %s (bits=%d)' % (o, p, n, out(n), n + p, out(n + p), bits)
     return None
+
+
+# ------------------------------------------------------------------ known finding D12 (recursion depth)
+DEEP = 300
+
+
+def tree_depth(t):
+    best = 0
+    stack = [(t, 1)]
+    while stack:
+        x, d = stack.pop()
+        if d > best:
+            best = d
+        if isinstance(x, tuple):
+            for c in x[1:]:
+                stack.append((c, d + 1))
+    return best
+
+
+def is_deep(s):
+    """structural predicate of known finding D12: the expression's tree is at least DEEP levels deep"""
+    try:
+        return tree_depth(ref_parse(s)) >= DEEP
+    except RefSyntaxError:
+        return False
+    except RecursionError:
+        return True
+
+
+def deep_family(depth):
+    return ['!' * depth + 'n', 'n' + '+1' * depth, 'n?' * depth + '1' + ':1' * depth, '(' * depth + 'n' + ')' * depth]
+
+
+def recursion_finding(ctx, s, r, where):
+    """True if r is the RecursionError of D12 on a deep expression (recorded as such)"""
+    if r == 'crash RecursionError' and is_deep(s):
+        ctx.fail('recursion', {'expr_prefix': s[:40], 'length': len(s), 'where': where},
+                 'RecursionError in %s on an expression nested >= %d levels' % (where, DEEP), 'D12')
+        return True
+    return False
